@@ -391,19 +391,20 @@ class _(Contract):
     """The image of the graph under v -> v.intervene(S), with the edges into intervened nodes dropped: a directed edge survives
     unless its head is intervened on (+head or -head in S), a bidirected edge unless either end is."""
     params = {"self": "graph", "variables": "nodeset"}
-    allowed_raises = ("ValueError", "TypeError")
+    allowed_raises = ("ValueError",)
     finite_ok = False      # creates nodes outside any fixed finite universe
 
     def raises(self, ex, a):
         L, g, S = ex.L, a.self, a.variables
         nonempty_graph = L.exists(1, lambda v: g.N(v))
-        bad_members = L.exists(1, lambda i: L.And(S.has(i), L.Not(L.is_intervention(i))))
-        return {"TypeError": L.And(nonempty_graph, bad_members),
-                "ValueError": L.And(nonempty_graph, L.Not(bad_members), L.Not(L.exists(1, lambda i: S.has(i))))}
+        return {"ValueError": L.And(nonempty_graph, L.Not(L.exists(1, lambda i: S.has(i))))}
 
     def pre(self, ex, a):
-        L, g = ex.L, a.self
-        return [("plain-nodes", L.forall(1, lambda v: L.Implies(g.N(v), L.And(L.Not(L.is_cf(v)), L.Not(L.is_intervention(v))))))]
+        # the declared type of `variables` is set[Intervention]; plain Variables would be converted by Variable.intervene (to
+        # Intervention(name, star=False)), which is outside the model of the Variable algebra -- hence a precondition, not a clause
+        L, g, S = ex.L, a.self, a.variables
+        return [("plain-nodes", L.forall(1, lambda v: L.Implies(g.N(v), L.And(L.Not(L.is_cf(v)), L.Not(L.is_intervention(v)))))),
+                ("members-are-interventions", L.forall(1, lambda i: L.Implies(S.has(i), L.is_intervention(i))))]
 
     def spec(self, ex, a):
         from y0vc import exprs
